@@ -327,17 +327,14 @@ func c13CheckEmitted(c c13Emit) engine.Result {
 			}
 			c13Delimited(&res, enc)
 		case "pmt-keep-first-k":
-			// a table of 60 (c.Seed%2==1: 200) descriptor-less streams filtered to its first k streams, for
+			// a table of 60 / 200 / 110 / 150 descriptor-less streams filtered to its first k streams, for
 			// every k: the rebuilt section runs through every length (buffer growth points included)
-			n := 60
-			if c.Seed%2 == 1 {
-				n = 200
-			}
+			n := [...]int{60, 200, 110, 150}[c.Seed%4] // section_length 313, 1013, 563, 763: every high-bits pair (before, after)
 			sec := ref.PMTSection{Program: 1, Version: 2, CurrentNext: true, PCRPID: 0x31}
 			for i := 0; i < n; i++ {
 				sec.Streams = append(sec.Streams, ref.Stream{Type: []byte{0x1B, 0x0F, 0x86}[i%3], PID: 0x31 + i})
 			}
-			payload := append(ref.Pointer(c.Seed/2*7), sec.Bytes()...)
+			payload := append(ref.Pointer(c.Seed/4*7), sec.Bytes()...)
 			var pkts []*packet.Packet
 			for i, rest := 0, payload; len(rest) > 0; i++ {
 				k := min(184, len(rest))
@@ -353,7 +350,7 @@ func c13CheckEmitted(c c13Emit) engine.Result {
 					b, _ := packet.Payload(o)
 					pay = append(pay, b...)
 				}
-				start := 1 + c.Seed/2*7
+				start := 1 + c.Seed/4*7
 				if len(pay) < start+3 {
 					res.Failf("emitted-section|filtered-pmt|truncated", "keep %d of %d: %d payload bytes", k, n, len(pay))
 					continue
@@ -508,7 +505,7 @@ func init() {
 			},
 			&engine.Enum[c13Emit]{
 				Name: "emitted-sections",
-				Rule: "every captured/constructed SCTE-35 section of the seed pool decoded and re-encoded with two tier values x alignment stuffing {0,1,4}, SCTE-35 sections with section_length 900..4093 (around every multiple of 1024; every SCTE-35 section is also delimited by its own 12-bit section_length the way a receiver does, and that part must be everything emitted and have a zero residue), every PMT of the seed pool filtered to each prefix of its PID list under 5 packetisations, and tables of 60 and 200 descriptor-less streams (pointer_field 0 and 7) filtered to their first k streams for every k: the reference CRC of every emitted section must be zero (the exhaustive versions of this clause live in C09 and C14)",
+				Rule: "every captured/constructed SCTE-35 section of the seed pool decoded and re-encoded with two tier values x alignment stuffing {0,1,4}, SCTE-35 sections with section_length 900..4093 (around every multiple of 1024; every SCTE-35 section is also delimited by its own 12-bit section_length the way a receiver does, and that part must be everything emitted and have a zero residue), every PMT of the seed pool filtered to each prefix of its PID list under 5 packetisations, and tables of 60, 110, 150 and 200 descriptor-less streams (pointer_field 0 and 7; section_length 313, 563, 763, 1013, so that every pair of high length bits before/after filtering occurs) filtered to their first k streams for every k: the reference CRC of every emitted section must be zero (the exhaustive versions of this clause live in C09 and C14)",
 				Gen: func(r *engine.Run, emit func(c13Emit)) {
 					for i := range c05SeedPools["scte35"] {
 						emit(c13Emit{"scte35", i})
@@ -516,7 +513,7 @@ func init() {
 					for i := range c05SeedPools["pmt"] {
 						emit(c13Emit{"pmt", i})
 					}
-					for i := 0; i < 4; i++ {
+					for i := 0; i < 8; i++ {
 						emit(c13Emit{"pmt-keep-first-k", i})
 					}
 					for _, t := range []int{900, 1000, 1022, 1023, 1024, 1025, 1040, 1100, 2047, 2048, 2049, 3000, 3072, 4093} {
